@@ -138,6 +138,17 @@ def normalise_renames(prog, Fn, inv):
             r2 = [m2 for m2 in rivals if fns[m2].get("print") == fns[m]["print"]]
             if len(c2) == 1 and len(r2) == 1:
                 pairs[c2[0]] = m
+    # moved, not renamed: same name and signature in another file / impl block of the same crate
+    def last(k):
+        return re.sub(r"^.*::", "", k)
+    for m in missing:
+        if m in pairs.values():
+            continue
+        crate = m.split("::", 1)[0]
+        c = [n for n in new if n not in pairs and n.startswith(crate + "::") and last(n) == last(m) and fn_sig(cur[n]) == fns[m]["sig"]]
+        rivals = [m2 for m2 in missing if m2 not in pairs.values() and m2.startswith(crate + "::") and last(m2) == last(m) and fns[m2]["sig"] == fns[m]["sig"]]
+        if len(c) == 1 and len(rivals) == 1:
+            pairs[c[0]] = m
     field_map = {}
     for crate in ("redproxy_rs", "milu"):
         used_names = set(fl[0] for a in inv.get("adts", {}).values() for v in a for fl in v[1])
@@ -591,6 +602,9 @@ COMB = {
     ("Option", "or_else"): {0: ("call", 1, None, False), 1: ("pass",)},
     ("Option", "or"): {0: ("arg", 1), 1: ("pass",)},
     ("Option", "is_some_and"): {0: ("const", 0), 1: ("call", 1, None, True)},
+    # bool receivers: variant 0 = false, 1 = true (the switch is on the value itself)
+    ("bool", "then"): {0: ("unit", "None"), 1: ("call", 1, "Some", False)},
+    ("bool", "then_some"): {0: ("unit", "None"), 1: ("wrap", "Some", ("arg", 1))},
     ("Result", "map"): {0: ("call", 1, "Ok", True), 1: ("pass",)},
     ("Result", "map_err"): {0: ("pass",), 1: ("call", 1, "Err", True)},
     ("Result", "and_then"): {0: ("call", 1, None, True), 1: ("pass",)},
@@ -602,7 +616,7 @@ COMB = {
     ("Result", "is_ok_and"): {0: ("call", 1, None, True), 1: ("const", 0)},
     ("Result", "is_err_and"): {0: ("const", 0), 1: ("call", 1, None, True)},
 }
-VNAME = {"Option": {0: "None", 1: "Some"}, "Result": {0: "Ok", 1: "Err"}}
+VNAME = {"Option": {0: "None", 1: "Some"}, "Result": {0: "Ok", 1: "Err"}, "bool": {0: "false", 1: "true"}}
 VDEF = {"None": "core::option::Option", "Some": "core::option::Option", "Ok": "core::result::Result", "Err": "core::result::Result"}
 
 
@@ -616,10 +630,10 @@ def desugar_combinators(prog, Fn, F):
         changed = False
         rounds += 1
         for c in F.calls:
-            m = re.search(r"(Option)::<T>::(\w+)$|(Result)::<T, E>::(\w+)$", c.path or "")
+            m = re.search(r"(Option)::<T>::(\w+)$|(Result)::<T, E>::(\w+)$|(bool)::<impl bool>::(\w+)$", c.path or "")
             if not m or c.term.get("inlined") or c.target is None or len(c.dest) != 1:
                 continue
-            ty, meth = (m.group(1), m.group(2)) if m.group(1) else (m.group(3), m.group(4))
+            ty, meth = (m.group(1), m.group(2)) if m.group(1) else ((m.group(3), m.group(4)) if m.group(3) else (m.group(5), m.group(6)))
             spec = COMB.get((ty, meth))
             if spec is None:
                 continue
@@ -655,11 +669,15 @@ def desugar_combinators(prog, Fn, F):
             disc = len(locals_)
             locals_.append({"ty": locals_[dest[0]]["ty"], "inlined": True})
             D = len(blocks)
-            blocks.append({"stmts": [{"k": "assign", "lhs": [disc], "rv": {"k": "discr", "p": [recv[0]]}, "sp": sp}], "term": None, "sp": sp, "inlined": True})
+            if ty == "bool":
+                blocks.append({"stmts": [{"k": "assign", "lhs": [disc], "rv": {"k": "use", "a": {"c": [recv[0]]}}, "sp": sp}], "term": None, "sp": sp, "inlined": True})
+                locals_[disc]["ty"] = locals_[recv[0]]["ty"]
+            else:
+                blocks.append({"stmts": [{"k": "assign", "lhs": [disc], "rv": {"k": "discr", "p": [recv[0]]}, "sp": sp}], "term": None, "sp": sp, "inlined": True})
             arms = {}
             pending = []
             for v, act in spec.items():
-                payload = {"m": [recv[0], "d:" + VNAME[ty][v], "f:0"]}
+                payload = {"m": [recv[0], "d:" + VNAME[ty][v], "f:0"]} if ty != "bool" else {"c": [recv[0]]}
                 stmts = []
                 bi = len(blocks)
                 blocks.append({"stmts": stmts, "term": {"k": "goto", "t": cont}, "sp": sp, "inlined": True})
@@ -703,10 +721,279 @@ def desugar_combinators(prog, Fn, F):
             # splice the closure bodies
             for (bi, cf, ops) in pending:
                 j = splice(j, bi, cf.j, "closure", upvar_args=ops)
+                j.setdefault("spliced_closures", [])
+                if cf.key not in j["spliced_closures"]:
+                    j["spliced_closures"].append(cf.key)
             F = Fn(prog, F.crate, j)
             changed = True
             break
+    if rounds > 1 and not os.environ.get("RPX_NO_THREAD"):
+        j = copy.deepcopy(F.j)
+        if thread_variants(prog, F.crate, j):
+            F = Fn(prog, F.crate, j)
     return F
+
+
+# --------------------------------------------------------------------------- variant jump threading
+
+_VIDX = {"None": 0, "Some": 1, "Ok": 0, "Err": 1}
+
+
+def _tsucc(t):
+    k = (t or {}).get("k")
+    if k in ("goto", "drop", "assert", "yield"):
+        return [t["t"]] if "t" in t else []
+    if k == "call":
+        return [t["t"]] if "t" in t else []
+    if k == "switch":
+        return [x[1] for x in t["ts"]] + [t["o"]]
+    return []
+
+
+def thread_variants(prog, crate, j, limit=60):
+    """Tail duplication over known enum variants.  After combinators were turned into control flow, a value whose variant is known
+    at the end of an arm (`r = Err(..)`, or `r = <the receiver>` on the arm where the receiver is Err) often flows through a join into
+    the next test of the same value (`?`, the next combinator's switch, a match).  The path from the arm to that test is duplicated and
+    ends in a jump to the arm the variant selects, so the control-flow graph no longer contains the combination "arm Err, then
+    continue as if Ok".  Whole blocks are copied and nothing is removed: the transformation preserves behaviour.
+    Mutates j in place; returns the number of threaded paths."""
+    blocks = j["blocks"]
+    locals_ = j["locals"]
+    types = prog.types[crate]
+
+    def kind_of(l):
+        s_ = types[locals_[l]["ty"]]["s"] if l < len(locals_) else ""
+        if s_.startswith("core::option::Option<"):
+            return ("None", "Some")
+        if s_.startswith("core::result::Result<"):
+            return ("Ok", "Err")
+        return None
+
+    def preds():
+        pr = {}
+        for i, b in enumerate(blocks):
+            if b.get("cleanup"):
+                continue
+            for x in set(_tsucc(b.get("term"))):
+                pr.setdefault(x, []).append(i)
+        return pr
+
+    def local_facts(bi, facts):
+        facts = dict(facts)
+        for st in blocks[bi].get("stmts", []):
+            if st.get("k") != "assign":
+                continue
+            lhs, rv = st["lhs"], st["rv"]
+            if len(lhs) == 1:
+                if rv["k"] == "agg" and rv.get("ak") == "adt" and str(rv.get("def", "")).endswith(("option::Option", "result::Result")) \
+                        and rv.get("variant") in _VIDX:
+                    facts[lhs[0]] = rv["variant"]
+                    continue
+                if rv["k"] == "use":
+                    pl = rv["a"].get("m") or rv["a"].get("c")
+                    if pl and len(pl) == 1 and pl[0] in facts:
+                        facts[lhs[0]] = facts[pl[0]]
+                        continue
+                facts.pop(lhs[0], None)
+            elif lhs:
+                facts.pop(lhs[0], None)
+            if rv["k"] in ("ref", "rawptr") and rv.get("mut") and rv["p"] and rv["p"][0] in facts and len(rv["p"]) == 1:
+                facts.pop(rv["p"][0], None)
+        return facts
+
+    def edge_fact(pi, bi):
+        """variant known on the edge pi -> bi because pi switches on a discriminant"""
+        t = blocks[pi].get("term") or {}
+        if t.get("k") != "switch":
+            return {}
+        d = (t["d"].get("m") or t["d"].get("c") or [None])
+        if len(d) != 1:
+            return {}
+        src = None
+        for st in blocks[pi].get("stmts", []):
+            if st.get("k") == "assign" and st["lhs"] == [d[0]]:
+                src = st["rv"]["p"] if st["rv"]["k"] == "discr" else None
+        if not src or len(src) != 1:
+            return {}
+        names = kind_of(src[0])
+        if not names:
+            return {}
+        vals = [v for v, x in t["ts"] if x == bi]
+        if t["o"] == bi:
+            if len(t["ts"]) == 1 and t["ts"][0][1] != bi and t["ts"][0][0] in (0, 1):
+                vals = [1 - t["ts"][0][0]]
+            else:
+                return {}
+        if len(vals) != 1 or vals[0] not in (0, 1):
+            return {}
+        return {src[0]: names[vals[0]]}
+
+    def exit_facts(bi, pr, depth=3):
+        ent = {}
+        ps = pr.get(bi, [])
+        if len(ps) == 1 and depth > 0 and ps[0] != bi:
+            pt = blocks[ps[0]].get("term") or {}
+            if pt.get("k") in ("goto", "drop", "switch"):
+                ent = exit_facts(ps[0], pr, depth - 1)
+                if pt.get("k") == "drop" and pt.get("p"):
+                    ent.pop(pt["p"][0], None)
+            ent.update(edge_fact(ps[0], bi))
+        return local_facts(bi, ent)
+
+    def touches(st, names):
+        if st.get("k") != "assign":
+            return False
+        if st["lhs"] and st["lhs"][0] in names:
+            return True
+        rv = st["rv"]
+        if rv["k"] in ("ref", "rawptr") and rv.get("mut") and rv["p"] and rv["p"][0] in names:
+            return True
+        return False
+
+    done = 0
+    tried = set()
+    for _ in range(limit):
+        pr = preds()
+        hit = None
+        for si, sb in enumerate(blocks):
+            if sb.get("cleanup") or sb.get("term") is None:
+                continue
+            st_ = sb["term"]
+            if st_.get("k") not in ("goto", "drop") or "t" not in st_:
+                continue
+            facts = exit_facts(si, pr)
+            if st_.get("k") == "drop" and st_.get("p"):
+                facts.pop(st_["p"][0], None)
+            for R, V in sorted(facts.items()):
+                if (si, R) in tried:
+                    continue
+                names = {R}
+                chain = []
+                cur = st_["t"]
+                seen = {si}
+                test = None
+                for _n in range(12):
+                    if cur in seen or cur >= len(blocks):
+                        break
+                    seen.add(cur)
+                    blk = blocks[cur]
+                    t = blk.get("term") or {}
+                    stmts = blk.get("stmts", [])
+                    # renames inside the block
+                    nn = set(names)
+                    bad = False
+                    dsc = None
+                    for st in stmts:
+                        if st.get("k") != "assign":
+                            continue
+                        rv = st["rv"]
+                        if len(st["lhs"]) == 1 and rv["k"] == "use":
+                            pl = rv["a"].get("m") or rv["a"].get("c")
+                            if pl and len(pl) == 1 and pl[0] in nn:
+                                nn.add(st["lhs"][0])
+                                continue
+                        if len(st["lhs"]) == 1 and rv["k"] == "discr" and len(rv["p"]) == 1 and rv["p"][0] in nn:
+                            dsc = (st["lhs"][0], rv["p"][0])
+                            continue
+                        if touches(st, nn):
+                            bad = True
+                    if bad:
+                        break
+                    if dsc and t.get("k") == "switch" and (t["d"].get("m") or t["d"].get("c")) == [dsc[0]]:
+                        test = ("switch", cur, dsc[1])
+                        break
+                    if t.get("k") == "call" and str((t.get("f") or {}).get("path", "")).endswith("ops::try_trait::Try::branch") and "t" in t \
+                            and not t.get("inlined") and len(t.get("dest") or []) == 1:
+                        a = t["args"][0].get("m") or t["args"][0].get("c")
+                        if a and len(a) == 1 and a[0] in nn:
+                            test = ("try", cur, a[0])
+                        break
+                    if t.get("k") == "goto" or (t.get("k") == "drop" and t.get("p") and t["p"][0] not in nn) or \
+                            (t.get("k") == "call" and t.get("inlined") and t.get("inlined") != "skipped" and "t" in t and not t.get("dest")):
+                        chain.append(cur)
+                        names = nn
+                        cur = t["t"]
+                        continue
+                    break
+                tried.add((si, R))
+                if test is None:
+                    continue
+                kind, tb, n = test
+                names_ = kind_of(n) or kind_of(R)
+                if not names_ or V not in names_:
+                    continue
+                idx = _VIDX[V]
+                tblk = blocks[tb]
+                if kind == "switch":
+                    tt = tblk["term"]
+                    tg = dict((v, x) for v, x in tt["ts"])
+                    target = tg.get(idx)
+                    if target is None:
+                        if len(tg) == 1 and (1 - idx) in tg:
+                            target = tt["o"]
+                        else:
+                            continue
+                    extra = []
+                else:
+                    tc = tblk["term"]
+                    BR = tc["dest"][0]
+                    D = tc["t"]
+                    dblk = blocks[D]
+                    dl = None
+                    okd = True
+                    for st in dblk.get("stmts", []):
+                        if st.get("k") != "assign":
+                            continue
+                        if st["rv"].get("k") == "discr" and st["rv"].get("p") == [BR] and len(st["lhs"]) == 1:
+                            dl = st["lhs"][0]
+                        elif st["rv"].get("k") != "use":
+                            okd = False
+                    dt = dblk.get("term") or {}
+                    if not okd or dl is None or dt.get("k") != "switch" or (dt["d"].get("m") or dt["d"].get("c")) != [dl]:
+                        continue
+                    tg = dict((v, x) for v, x in dt["ts"])
+                    target = tg.get(idx)
+                    if target is None:
+                        if len(tg) == 1 and (1 - idx) in tg:
+                            target = dt["o"]
+                        else:
+                            continue
+                    sp = tblk.get("sp") or {}
+                    if idx == 0:
+                        agg = {"k": "agg", "ak": "adt", "def": "core::ops::control_flow::ControlFlow", "variant": "Continue", "fields": ["0"],
+                               "ops": [{"m": [n, "d:" + V, "f:0"]}]}
+                    else:
+                        agg = {"k": "agg", "ak": "adt", "def": "core::ops::control_flow::ControlFlow", "variant": "Break", "fields": ["0"],
+                               "ops": [{"m": [n]}]}
+                    extra = [{"k": "assign", "lhs": [BR], "rv": agg, "sp": sp}] + [copy.deepcopy(st) for st in dblk.get("stmts", [])]
+                hit = (si, chain, tb, target, extra)
+                break
+            if hit:
+                break
+        if not hit:
+            break
+        si, chain, tb, target, extra = hit
+        first = len(blocks)
+        seq = chain + [tb]
+        for k, cb in enumerate(seq):
+            ob = blocks[cb]
+            nb = {"stmts": copy.deepcopy(ob.get("stmts", [])), "sp": ob.get("sp"), "inlined": True, "threaded": cb}
+            if cb == tb and k == len(seq) - 1:
+                nb["stmts"] += extra
+                nb["term"] = {"k": "goto", "t": target}
+            else:
+                ot = ob["term"]
+                if ot.get("k") == "drop":
+                    nt = copy.deepcopy(ot)
+                    nt["t"] = first + k + 1
+                    nt.pop("u", None)
+                else:
+                    nt = {"k": "goto", "t": first + k + 1}
+                nb["term"] = nt
+            blocks.append(nb)
+        blocks[si]["term"]["t"] = first
+        done += 1
+    return done
 
 
 # --------------------------------------------------------------------------- driver
@@ -723,8 +1010,8 @@ def expand(prog, Fn, log=None):
     if not os.environ.get("RPX_NO_DESUGAR"):
         finv = inv.get("fns", {})
         for k in sorted(prog.fns):
-            f0 = prog.fns[k]
-            if f0.crate not in ("redproxy_rs", "milu"):
+            f0 = prog.fns.get(k)
+            if f0 is None or f0.crate not in ("redproxy_rs", "milu"):
                 continue
             tk = top_key(k)
             top = prog.fns.get(tk)
@@ -741,6 +1028,18 @@ def expand(prog, Fn, log=None):
                 prog.fns[k] = nf
                 prog.by_crate[nf.crate][nf.path] = nf
                 prog.desugared.append(k)
+                # a closure literal consumed by a rewritten combinator now lives inside its user
+                for ck in nf.j.get("spliced_closures", []):
+                    g = prog.fns.get(ck)
+                    if g is None:
+                        continue
+                    uses = sum(1 for b in nf.j["blocks"] for st in b.get("stmts", [])
+                               if st["k"] == "assign" and st["rv"]["k"] == "agg" and st["rv"].get("ak") == "closure"
+                               and nf.crate + "::" + st["rv"]["def"] == ck and not b.get("inlined"))
+                    if uses == 1:
+                        prog.fns.pop(ck, None)
+                        prog.by_crate[g.crate].pop(g.path, None)
+                        g.j["merged_away"] = True
         prog._cg = prog._rcg = None
     inv = set(inv["fns"])
     done = []
